@@ -50,7 +50,7 @@ PROBES = ['fault_rst', 'fault_eof', 'fault_stall', 'cut_before_auth',
           'cut_with_channels', 'cancelled_task',
           'op_error', 'sftp_started', 'teardown_server_side',
           'tunnel_opened', 'tunnel_by_name', 'cut_inner_leg',
-          'connect_cancelled']
+          'connect_cancelled', 'reading_paused']
 
 _sandbox = [None]
 
@@ -114,6 +114,12 @@ def gen_script(rng, kind, side):
             ops.append(['close'])
         elif r < 78:
             ops.append(['abort'])
+
+            if rng.chance(50):
+                ops.append(['wait'])
+        elif r < 81 and kind != 'sftp':
+            # stop taking data: what arrives from now on stays buffered
+            ops.append(['pause'])
         elif r < 88:
             ops.append(['wait'] if side == 'c' else
                        ['exit', rng.below(3)])
@@ -362,6 +368,7 @@ class Run:
         self.inner_clients = []
         self.inner_acceptor = None
         self.own_tunnels = []
+        self.aborted = []
         self.sess_count = 0
         self.conn = None
         self.acceptor = None
@@ -398,7 +405,18 @@ class Run:
                 elif k == 'close':
                     chan.close()
                 elif k == 'abort':
+                    num = getattr(chan, '_recv_chan', None)
+                    owner_conn = getattr(chan, '_conn', None)
                     chan.abort()
+
+                    # abort() discards both directions: once the peer's
+                    # CLOSE is in, nothing is left to wait for
+                    self.aborted.append(
+                        (name, owner_conn, num,
+                         sim.track('abortwait-' + name, chan.wait_closed())))
+                elif k == 'pause':
+                    chan.pause_reading()
+                    sim.probes['reading_paused'] += 1
                 elif k == 'wait':
                     await chan.wait_closed()
                 elif k == 'exit':
@@ -802,12 +820,38 @@ def run_plan(plan, sched_seed=None, sched_replay=None):
             sim.probes['cut_with_channels'] += 1
 
     if not sim.loop.capped:
+        # a channel that was aborted locally and whose peer has sent its
+        # CLOSE must be closed by now, with or without the connection
+        for name, owner_conn, num, task in run.aborted:
+            if task.done() or owner_conn is None or num is None:
+                continue
+
+            got_close = False
+
+            for label, pkts in sim.pkts.items():
+                if sim.conns.get(label) is not owner_conn:
+                    continue
+
+                for d, t, _seq, payload, _note in pkts:
+                    if d == 'R' and t == 97 and len(payload) >= 5 and \
+                            int.from_bytes(payload[1:5], 'big') == num:
+                        got_close = True
+
+            if got_close:
+                sim.probes['abort_after_peer_close'] += 1
+                world.violation(
+                    'hang', 'channel %s: abort() was called and the peer\'s '
+                    'CLOSE has arrived, yet wait_closed() never completes '
+                    '(channel still open)' % name, sig='abortwait')
+                break
+
         if conn_gone():
             # connection is gone: nothing may still be waiting
             indep = {'drv-c%d' % i for i, ch in enumerate(plan['channels'])
                      if ch['kind'] == 'tunnel' and
                      ch.get('via') in ('string', 'string2', 'string2x')
                      and f['kind'] != 'stall'}
+            indep |= {n.replace('drv-', 'abortwait-') for n in indep}
             hung = [t.sim_name for t in sim.tracked if not t.done() and
                     t.sim_name not in indep]
 
